@@ -48,6 +48,7 @@ struct Mon{
     Ev *pool = nullptr;       // all event buffers, allocated by the main thread (an allocation is a write for TSan: no thread may allocate what the watchdog reads)
     std::atomic<int> inflight[MAX_TID];
     std::atomic<long> launched{0};
+    std::vector<double> dom_a, dom_b; // domain box (read-only while threads run)
     // configuration read by the callbacks (written before any thread starts)
     int dims = 1, outs = 1, vmode = 0, gen_tag = 0;
     size_t jobs_eff = 1, batch_eff = 1;
@@ -139,7 +140,16 @@ static inline void model_latency(Mon *m, const double *x, size_t tid){
     switch(m->latency){
         case 1: us = (long)(r % 300); break;                                             // uniform
         case 2: us = ((int) tid == m->slow_tid) ? 800 + (long)(r % 1500) : (long)(r % 40); break; // one slow worker
-        default: us = (r % 10 == 0) ? 1500 + (long)((r >> 8) % 1000) : 0; break;         // bursty
+        case 3: us = (r % 10 == 0) ? 1500 + (long)((r >> 8) % 1000) : 0; break;          // bursty
+        default:{ // coarse points slowest: a sample is the slower the more of its coordinates sit on a level-0/1 node (ends or middle of the domain),
+                  // so that children tend to finish before their parents
+            int coarse = 0;
+            for(int i=0; i<m->dims; i++){
+                double t = (x[i] - m->dom_a[(size_t) i]) / (m->dom_b[(size_t) i] - m->dom_a[(size_t) i]);
+                if (std::fabs(t) < 1e-9 || std::fabs(t - 0.5) < 1e-9 || std::fabs(t - 1.0) < 1e-9) coarse++;
+            }
+            us = (coarse == m->dims) ? 2500 + (long)(r % 500) : (coarse == m->dims - 1) ? 300 : 0;
+            break; }
     }
     if (us >= 30) nap_us(us); else if (us > 0) sched_yield();
 }
@@ -421,11 +431,11 @@ struct CCase{
     TypeDepth ctype = type_iptotal; std::vector<int> weights; std::vector<int> limits;
     int vmode = 0, latency = 0, slow_tid = 0, perturb = 0; std::string focus;
 };
-static const char* lat_name(int l){ static const char *n[] = {"zero", "uniform", "one-slow-worker", "bursty"}; return n[l]; }
+static const char* lat_name(int l){ static const char *n[] = {"zero", "uniform", "one-slow-worker", "bursty", "coarse-points-slowest"}; return n[l]; }
 static const char* per_name(int p){ static const char *n[] = {"none", "light", "heavy", "focus"}; return n[p]; }
 
 static void draw_schedule(Rng &rng, int &latency, int &perturb, std::string &focus, bool load){
-    latency = rng.range(0, 3);
+    { static const int lw[] = {0, 0, 0, 1, 1, 1, 1, 2, 2, 2, 2, 3, 3, 3, 4, 4, 4, 4, 4, 4}; latency = lw[rng.range(0, 19)]; } // 30% coarse-points-slowest (children overtake parents)
     perturb = rng.range(0, 3);
     if (perturb == 3){
         static const std::vector<std::string> fc = {"w-model", "w-lock", "w-done", "w-notify", "w-wait", "w-wake", "m-wait", "m-wake", "m-collect", "m-assign", "m-shutdown", "m-notify", "m-join"};
@@ -489,6 +499,14 @@ static CCase draw_construct(Rng &rng, bool thorough){
     if (k.budget_class == "larger-than-pool" && !limited) k.budget_class = "medium";
     if (k.budget_class == "tolerance-first" && !(k.overload == 0 && c.rule != rule_localp0)) k.budget_class = limited ? "larger-than-pool" : "medium";
     if (k.budget_class == "tolerance-first") k.vmode = 1;
+    if (k.overload == 0 && !limited){
+        // surplus refinement can chase a non-decaying surplus (zero-boundary rule on a non-vanishing model, classic criterion with missing parents) down one
+        // direction; at level 30 the library's int point index overflows (UB / endless loop in intlog2) - that is C08's subject, keep the depth bounded here
+        int safe = (c.family == fam_wavelet) ? ((c.dims == 1) ? 6 : 4) : ((c.dims == 1) ? 10 : (c.dims == 2) ? 7 : 5);
+        k.limits.assign((size_t) c.dims, safe);
+        k.limits_in_call = rng.coin(0.6);
+        if (!k.limits_in_call) c.limits = k.limits;
+    }
     k.budget = (size_t) rng.range(12, thorough ? 160 : 90); // the "medium" value
     if (k.overload == 0){
         k.tol = (k.vmode == 1) ? std::exp(rng.uni(std::log(2e-3), std::log(5e-2))) : (rng.coin(0.5) ? 0.0 : rng.uni(0.05, 0.5));
@@ -567,6 +585,7 @@ static void run_construct(CaseCtx &c, Rng &rng){
     m->jobs_eff = k.parallel ? std::max<size_t>(1, k.jobs) : 1; m->batch_eff = std::max<size_t>(1, k.batch); m->guess = k.guess;
     m->latency = k.latency; m->slow_tid = k.slow_tid; m->lat_seed = rng.next();
     m->perturb = k.perturb; m->focus = k.focus; m->perturb_seed = rng.next();
+    domain_box(g, m->dom_a, m->dom_b);
 
     // state before the call
     PointSet before(d);
@@ -750,6 +769,7 @@ static void run_load(CaseCtx &c, Rng &rng){
     m->jobs_eff = (par && threads > 0) ? threads : 1; m->batch_eff = 1;
     m->latency = latency; m->slow_tid = rng.range(0, (int) std::max<size_t>(threads, 1) - 1); m->lat_seed = rng.next();
     m->perturb = per; m->focus = focus; m->perturb_seed = rng.next();
+    domain_box(g, m->dom_a, m->dom_b);
 
     // state before the call: nothing loaded / loaded (generation 1) / loaded and refined (needed points present)
     PointSet before(d);
